@@ -56,6 +56,22 @@ CLAIMED = {
             'crash_safe, complete_from_first_rewrite_on, interrupt_keeps_last_accepted about Model/FileProto.v for every chunking and prefix; truncating_protocol_refuted for the pre-repair protocol. Tie: the real write_smtlib_to_file with open/os wrapped: '
             'disk content read after each event, KeyboardInterrupt at every event index, observed operation history replayed in the extracted model; real runs with a concurrent reader, SIGKILL, SIGINT.',
             'PARTIAL: atomicity of rename(2), CPython buffering and signal timing are assumed/sampled, not proved.', 'DESIGN.md section 4, C06'),
+    'C03': ('Coq proof of termination of the strategy loop under a decreasing measure (well-founded variant, all interleavings) and of the linear iteration bounds of substitute/equality + bounded cycle/no-op search and watchdogged real runs',
+            'no_infinite_run / sweep_progress / adoptions_bounded about Model/SchedHier.v; subst_refines and eq_sm_refines give explicit fuel bounds for the only unbounded loops reachable from mutators. '
+            'The global no-cycle claim is false of the code (FAQ) and is searched, not proved: every proposal of every mutator on generated inputs (no-ops, hangs), second/third-level proposals (2-/3-cycles), real runs with --check-loops under a watchdog.',
+            'PARTIAL: absence of cycles is a bounded search, not a theorem; the decreasing measure is a hypothesis of the termination theorem. Known cycles are listed in known_findings.json.', 'DESIGN.md section 4, C03'),
+    'C15': ('Coq proof that well-formed trees round-trip through every renderer (C07) and that substitution inserts replacements as given (C11) + exhaustive application of every proposal of all 53 mutators on generated and targeted inputs',
+            'the closure argument is composed from parse_w_* (C07) and subst_tokens_closed (C11); per-mutator closure is established by correspondence: every proposal of every mutator (all 53 exercised, targeted instances per class) is applied, rendered, '
+            're-parsed and compared with the tree in memory; declarations must be fresh and precede their first use.',
+            'PARTIAL: per-mutator M_closed theorems exist only for the mutators modelled in Coq; for the others the claim rests on the exhaustive-proposal correspondence.', 'DESIGN.md section 4, C15'),
+    'C16': ('independent typing function in Coq (Spec/Typing.v, extracted) as oracle + get_sort/get_bv_width queried on every typed subterm of generated well-sorted scripts and every replacement of the sort-based mutators re-typed',
+            'Spec/Typing.type_of is an executable SMT-LIB typing function written independently of the code; it validates the typed generator and re-types every replacement proposed by Constants / ReplaceByVariable / IntroduceFreshVariable; '
+            'get_sort and get_bv_width are compared with the actual sort on every subterm (all theories).',
+            'PARTIAL: the soundness theorem get_sort_sound about a Gallina model of _get_sort_aux is in progress (see DESIGN.md); until it lands the level is specification-based correspondence.', 'DESIGN.md section 4, C16'),
+    'C17': ('typing function in Coq as sort oracle + equivalence of every (term, replacement) pair of the 21 identity mutators on targeted instances (z3 as independent evaluator for the search)',
+            'for each mutator of the property\'s list, instances over all widths/indices/notations (incl. formals named like symbols of the actuals); replacements are re-typed by the extracted Spec/Typing.type_of and checked equivalent. '
+            'Known finding F19 (variable capture in inlining) is reported as KNOWN-FINDING.',
+            'PARTIAL: per-rewrite identity theorems over Spec/Semantics.v are in progress (see DESIGN.md); z3 4.8.12 is trusted only for finding counterexamples.', 'DESIGN.md section 4, C17'),
 }
 ALL = ['C%02d' % i for i in range(1, 19)]
 NOT_APPLICABLE = {p: PARTIAL for p in ALL if p not in CLAIMED}
